@@ -4,10 +4,10 @@ import vlib
 from props import subhist_common as S
 from props import sinkbp_common as BP
 
-TRANSLATORS = []
+TRANSLATORS = ["accept_order"]     # Model/SubBook.v interprets the order of accept()'s steps read from the source
 MODELS = ["subhist", "sinkbp"]
 BINS = {"release": ["subhist", "sinkbp"]}
-RULE = ("cases = one script line each (subscribe/accept/reject/clone/drop/send/try_send/is_closed/return/unsubscribe/"
+RULE = ("cases = one script line each (subscribe/accept/reject/abandoned call/drop pending/clone/drop/send/try_send/is_closed/return/unsubscribe/"
         "connection drop/server stop over 1..2 connections, several concurrent subscriptions), run on a real "
         "jsonrpsee_server::Server over loop-back WebSocket with a remote-controlled handler (harness/src/bin/subhist.rs) "
         "and replayed on the extracted SubBook LTS (modelrun/subhist_driver.ml); results diffed line by line; the C04 "
